@@ -10,6 +10,8 @@ import NsyncVerif.Model.MuQDriver
 import NsyncVerif.Model.CounterDriver
 import NsyncVerif.Model.CvFixDriver
 import NsyncVerif.Model.NoteDriver
+import NsyncVerif.Model.MuCDriver
+import NsyncVerif.Model.WaitNDriver
 /-
   `replay <layer>…` : reads a harness log (or a differential case file) on stdin and feeds every line
   to the selected layers.  A layer answers `ok`, `skip`, `#` or a complaint (`REJECT …`, `MISMATCH …`,
@@ -32,6 +34,8 @@ structure Layers where
   counter : Counter.Driver.DState := Counter.Driver.init
   cv : CvFix.Driver.DState := CvFix.Driver.init
   note : Note.Driver.DState := Note.Driver.init
+  muc : MuC.Driver.DState := MuC.Driver.init
+  waitn : WaitN.Driver.DState := WaitN.Driver.init
 
 /-- Nested API boundaries are logged as `ncall`/`nret` with structured names (`oncesync5.mu`,
     `ctr0.mu`, …); the layers that treat an inner mutex/cv as a black box were written against
@@ -75,6 +79,8 @@ def Layers.feed (l : Layers) (name line : String) : Layers × String :=
     else (l, "skip")
   | "cv" => let (d, o) := CvFix.Driver.step l.cv line; ({ l with cv := d }, o)
   | "note" => let (d, o) := Note.Driver.step l.note line; ({ l with note := d }, o)
+  | "muc" => let (d, o) := MuC.Driver.step l.muc line; ({ l with muc := d }, o)
+  | "waitn" => let (d, o) := WaitN.Driver.step l.waitn line; ({ l with waitn := d }, o)
   | "vc" => let (d, o) := VC.Driver.step l.vc line; ({ l with vc := d }, o)
   | "deadline" => let (d, o) := Deadline.Driver.step l.deadline line; ({ l with deadline := d }, o)
   | "dll" => let (d, o) := Dll.Driver.step l.dll line; ({ l with dll := d }, o)
@@ -94,7 +100,7 @@ structure St where
   skipped : Nat := 0
   rejects : Nat := 0
   cov : List (String × Nat) := []
-  cvF3 : Bool := false
+  active : Option (List String) := none   -- `# layers …` directive of the current execution
   foreign : List (String × Nat × Nat) := []   -- (layer, tid) ↦ depth of nested calls on objects that are not the layer's
 
 def mergeCov (a b : List (String × Nat)) : List (String × Nat) :=
@@ -134,12 +140,15 @@ partial def loop (h : IO.FS.Stream) (names : List String) (st : St) : IO St := d
   let st := { st with lineNo := st.lineNo + 1 }
   if line.startsWith "# begin" then
     let cov := mergeCov st.cov st.layers.mux.cov
-    loop h names { st with layers := {}, dead := [], execNo := st.execNo + 1, cov := cov, cvF3 := false, foreign := [] }
+    loop h names { st with layers := {}, dead := [], execNo := st.execNo + 1, cov := cov, foreign := [], active := none }
+  else if line.startsWith "# layers " then
+    -- per-execution choice of acceptors (the check maps scenario families to layers)
+    loop h names { st with active := some (((line.drop 9).toString.splitOn " ").filter (· != "")) }
   else if line.startsWith "# outcome" || line.startsWith "# sched" || line.startsWith "# endexec" then
     loop h names st
   else
     let mut st := st
-    for name in names do
+    for name in (st.active.getD names) do
       if !st.dead.contains name then
         let (ftbl, hide) :=
           if name == "note" then hideForeign st.foreign name (fun o => o.startsWith "note") line
